@@ -13,6 +13,22 @@ def main():
             props_override = a.split("=", 1)[1].split(",")
     assert sh("git -C /repo status --porcelain").stdout.strip() == "", "repo not clean"
     results = {}
+    import shutil, tempfile
+    bak = tempfile.mkdtemp(prefix="verif_ev_")
+    shutil.copytree("/verif/evidence", bak + "/evidence")
+    try:
+        results = _run(dirs, props_override)
+    finally:
+        shutil.rmtree("/verif/evidence")
+        shutil.copytree(bak + "/evidence", "/verif/evidence")
+        shutil.rmtree(bak)
+    sh("rm -f /verif/replays/*/*.json")
+    json.dump({"%s:%s" % k: v for k, v in results.items()}, open("/tmp/seedtest_last.json", "w"), indent=1)
+    return 0
+
+
+def _run(dirs, props_override):
+    results = {}
     for d in dirs:
         d = os.path.abspath(d.rstrip("/"))
         meta = json.load(open(os.path.join(d, "meta.json")))
@@ -29,8 +45,7 @@ def main():
                 results[(os.path.basename(d), p)] = bool(viol)
         finally:
             sh("git -C /repo checkout -- .")
-    sh("rm -f /verif/replays/*/*.json")
-    return 0
+    return results
 
 if __name__ == "__main__":
     sys.exit(main())
